@@ -11,6 +11,16 @@
      C04_junk_verbatim, C04_junk_skipped     Junk is written byte for byte / not at all (the D6 repair)
      C04_comment_lines            the exact text serialize_comment writes
      C04_final_indent_zero        a run of the serializer ends at the indent level it started with
+   PROVED FOR THE FRAGMENT simple_resource (Syntax/RoundTrip.v: stand-alone comments of all three levels;
+   messages and terms without attached comment whose value and attribute values are one single-line text
+   element each; messages with attributes only; see Props/C02.v for the exact definition and what it
+   excludes), both serializer options:
+     C04_roundtrip_simple_partial the round trip: the serializer's text parses back to the SAME tree, no errors
+     C04_fixpoint_simple_partial  serialising the re-parsed tree gives the same text
+     C04_simple_output            the text itself (one line per message/term/attribute/comment line, blank lines
+                                  around stand-alone comments)
+     C04_simple_are_parser_outputs   every tree of the fragment is a parser output (so the two theorems above
+                                  are not vacuous as statements about "trees the parser can produce")
    STATED ONLY (Definitions, Prop-valued):
      C04_roundtrip_statement, C04_fixpoint_statement      the property over all parser outputs
    and, as the code stands, both are FALSE: the recorded findings D7 (a lone '#' as last line) and D21
@@ -20,6 +30,7 @@
    Examples (vm_compute): C04_example_xxx — round trip and fixed point on concrete inputs.          *)
 From FluentV Require Import Base.Bytes Base.Outcome Base.Utf8 Syntax.Ast.
 From FluentV Require Import Syntax.ParserModel Syntax.SerializerModel Syntax.SerializerProofs Syntax.TreeNorm.
+From FluentV Require Import Syntax.Render Syntax.RoundTrip Syntax.SerializerRoundTrip.
 
 (* ---- "serialising ... yields" : the serializer returns for every tree ---- *)
 Theorem C04_serialize_total :
@@ -195,6 +206,72 @@ Proof.
     as [t2 [e2 [Hp Hn]]].
   vm_compute in Hp. injection Hp as <- <-. vm_compute in Hn. discriminate Hn.
 Qed.
+
+(* ---------------------------------------------------------------------------------------------- *)
+(* The property on the fragment simple_resource (see Props/C02.v for what the fragment excludes)     *)
+
+Lemma simple_no_junk t with_junk : simple_resource t = true -> drop_junk_unless with_junk t = t.
+Proof.
+  intros Ht. destruct with_junk; [reflexivity|]. unfold drop_junk_unless.
+  induction t as [|e r IH]; [reflexivity|]. cbn [simple_resource forallb] in Ht.
+  apply andb_prop in Ht as [He Hr]. cbn [filter]. destruct e; try discriminate; cbn [entry_is_junk negb];
+    rewrite (IH Hr); reflexivity.
+Qed.
+
+(* C04_roundtrip_statement with the extra premise that the parsed tree lies in the fragment;
+   the re-parsed tree is even EQUAL to the first one and there are no errors *)
+Theorem C04_roundtrip_simple_partial :
+  forall bs t errs, parse bs = Done (t, errs) -> simple_resource t = true ->
+  forall with_junk s, serialize_with_options with_junk t = Done s ->
+  exists t2 errs2, parse s = Done (t2, errs2) /\ norm t2 = norm (drop_junk_unless with_junk t) /\
+                   t2 = t /\ errs2 = [].
+Proof.
+  intros bs t errs _ Ht wj s Hs.
+  destruct (parse_serialize_simple wj t Ht) as [s' [Hs' Hp]].
+  rewrite Hs' in Hs. injection Hs as <-.
+  exists t, []. rewrite (simple_no_junk t wj Ht). split; [exact Hp | repeat split].
+Qed.
+
+Theorem C04_fixpoint_simple_partial :
+  forall bs t errs, parse bs = Done (t, errs) -> simple_resource t = true ->
+  forall with_junk s, serialize_with_options with_junk t = Done s ->
+  forall t2 errs2, parse s = Done (t2, errs2) -> serialize_with_options with_junk t2 = Done s.
+Proof.
+  intros bs t errs _ Ht wj s Hs t2 errs2 Hp2.
+  destruct (parse_serialize_simple wj t Ht) as [s' [Hs' Hp]].
+  rewrite Hs' in Hs. injection Hs as <-. rewrite Hp in Hp2. injection Hp2 as <- <-. exact Hs'.
+Qed.
+
+(* the text (SerializerRoundTrip.simple_resource_text): per message  id " = " text, then per attribute a new
+   line with four spaces, ".", the attribute id, " = " and its text, then LF; a term has a leading '-'; a
+   message without value has  id " ="  and its attributes; a stand-alone comment is preceded by an empty line
+   unless it is the first entry, has per line the prefix (#, ##, ###), " " and the line (an empty line: the
+   prefix only) and LF, and is followed by an empty line *)
+Theorem C04_simple_output :
+  forall with_junk t, simple_resource t = true ->
+  serialize_with_options with_junk t = Done (simple_resource_text t).
+Proof. exact serialize_simple. Qed.
+
+Example C04_example_simple_output :
+  let t := [ResourceComment (Comment [bytes_of_string "r"; []; bytes_of_string "s"]);
+            Message (bytes_of_string "m") (Some (Pattern [TextElement (bytes_of_string "[v]")]))
+                    [Attribute (bytes_of_string "a") (Pattern [TextElement (bytes_of_string "w x")])] None;
+            CommentEntry (Comment [bytes_of_string "free"]);
+            Message (bytes_of_string "n") None [Attribute (bytes_of_string "b") (Pattern [TextElement (bytes_of_string "*")])] None;
+            Term (bytes_of_string "t") (Pattern [TextElement (bytes_of_string "y")]) [] None] in
+  simple_resource t = true /\
+  serialize_with_options true t =
+  Done (bytes_of_string "### r" ++ [10%N] ++ bytes_of_string "###" ++ [10%N] ++ bytes_of_string "### s" ++ [10; 10]%N ++
+        bytes_of_string "m = [v]" ++ [10%N] ++ bytes_of_string "    .a = w x" ++ [10; 10]%N ++
+        bytes_of_string "# free" ++ [10; 10]%N ++
+        bytes_of_string "n =" ++ [10%N] ++ bytes_of_string "    .b = *" ++ [10%N] ++
+        bytes_of_string "-t = y" ++ [10%N]).
+Proof. split; vm_compute; reflexivity. Qed.
+
+(* the premise "parse bs = Done (t, errs)" is satisfiable for every tree of the fragment *)
+Theorem C04_simple_are_parser_outputs :
+  forall t, simple_resource t = true -> exists bs, parse bs = Done (t, []).
+Proof. intros t Ht. exists (render [] t). apply parse_render_simple, Ht. Qed.
 
 (* ---------------------------------------------------------------------------------------------- *)
 (* Non-vacuity: the round trip and the fixed point on concrete inputs                               *)
